@@ -489,10 +489,10 @@ pub fn run(tier: Tier) -> Report {
   let mut rep = Report::new("C11", tier, "model_checking");
   rep.assume("the oracle does not require an identity claimed by two live peers to stay routable to either (collision handling is unspecified); it requires that nothing is delivered to a peer that did not announce the addressed identity");
   rep.assume("payloads name their true origin, so the harness knows which connection a message really came from independently of the identity frame");
-  rep.add(map_sub(tier.pick(5, 6)));
+  rep.add(map_sub(tier.pick(5, 7)));
   let mut work: Vec<(Vec<PeerCfg>, bool, Vec<Ev>)> = vec![];
   for ps in peer_sets(tier) {
-    let depth = if ps.len() == 1 { tier.pick(4, 6) } else { tier.pick(3, 5) };
+    let depth = if ps.len() == 1 { tier.pick(4, 7) } else { tier.pick(3, 5) };
     for sc in scripts(ps.len(), depth) {
       for mandatory in [true, false] {
         work.push((ps.clone(), mandatory, sc.clone()));
@@ -501,7 +501,7 @@ pub fn run(tier: Tier) -> Report {
   }
   let mut sub = Sub::new("router-scripts", "E3");
   sub.rule = "case = one world: a real ROUTER, 1-2 real peers (DEALER/REQ/ROUTER; configured, anonymous, 255-byte or colliding routing ids), one event script over {connect (handshake held or not), release, peer sends, ROUTER recv, ROUTER send to a peer's identity, send to an unknown identity, disconnect} with quiescence after every event, then a full drain; non-trivial = traffic flowed in some direction; oracle: identity prefix = announced identity of the true origin, payload frames unchanged, nothing delivered to a peer that did not announce the addressed identity, unroutable -> HostUnreachable iff ROUTER_MANDATORY".into();
-  sub.bounds = json!({"worlds": work.len(), "peer_sets": peer_sets(tier).len(), "depth_1peer": tier.pick(4, 6), "depth_2peers": tier.pick(3, 5)});
+  sub.bounds = json!({"worlds": work.len(), "peer_sets": peer_sets(tier).len(), "depth_1peer": tier.pick(4, 7), "depth_2peers": tier.pick(3, 5)});
   par::enumerate(&mut sub, work.len(), |i| {
     let (ps, mandatory, sc) = &work[i];
     let r = run_script(ps, *mandatory, sc);
